@@ -66,6 +66,9 @@ pub struct Cfg {
     pub rev_prover: bool,
     pub rev_verifier: bool,
     pub seed: u64,
+    /// mixed into the seed of the SRS only: two configurations that differ in nothing else share polynomials,
+    /// points and challenges but have independent trapdoors
+    pub srs_salt: u64,
 }
 impl Cfg {
     pub fn new(sz: Size, polys: Vec<PolySpec>) -> Cfg {
@@ -83,6 +86,7 @@ impl Cfg {
             rev_prover: false,
             rev_verifier: false,
             seed: 1,
+            srs_salt: 0,
         }
     }
     pub fn points(mut self, n: usize, queries: Vec<(usize, usize)>) -> Cfg {
@@ -120,7 +124,7 @@ pub fn sponge_like(pre: &RoSponge) -> RoSponge {
 pub fn keys<S: Sch>(cfg: &Cfg) -> Result<(CkOf<S>, VkOf<S>, StdRng, PpOf<S>), Verdict> {
     let mut rng = StdRng::seed_from_u64(cfg.seed.wrapping_mul(0x9E37_79B9).wrapping_add(7));
     // the SRS has its own RNG: a confirmation replay re-draws the trapdoor and nothing else
-    let mut srs_rng = StdRng::seed_from_u64(cfg.seed.wrapping_mul(0x51_7cc1).wrapping_add(13) ^ crate::engine::explore::replay_salt());
+    let mut srs_rng = StdRng::seed_from_u64(cfg.seed.wrapping_mul(0x51_7cc1).wrapping_add(13) ^ crate::engine::explore::replay_salt() ^ cfg.srs_salt);
     let pp = S::setup(&cfg.sz, &mut srs_rng).map_err(|e| Verdict::viol("setup-err", e))?;
     let enforced: Option<Vec<usize>> = match &cfg.enforced {
         Some(e) => Some(e.clone()),
